@@ -164,6 +164,15 @@ func Shapes() []*Grammar {
 	add("choice-empty-alt", Seq(Alt(a(), b(), c(), Empty()), x()))
 	add("choice-ilit", Alt(Seq(ILit("a"), x()), Seq(ILit("b"), x()), Seq(Class(R('0', '9')), x())))
 	add("choice-negclass", Alt(Seq(NClass(R('a', 'y')), x()), Seq(a(), Lit("y")), Seq(b(), Lit("z"))))
+	// repetition as the first element of a switch case (later iterations must still test)
+	add("choice-star-seq-in-case", Seq(Alt(Seq(Star(Seq(a(), b())), a(), c()), Lit("d"), Class(R('x', 'z'))), Not(Dot())))
+	add("choice-plus-seq-in-case", Seq(Alt(Seq(Plus(Seq(Lit("-"), Lit(">"))), Class(R('0', '9'))), Class(R('0', '9')), Seq(Lit("("), Class(R('0', '9')), Lit(")"))), Not(Dot())))
+	add("choice-opt-seq-in-case", Seq(Alt(Seq(Opt(Seq(a(), b())), a(), c()), Lit("d"), Class(R('x', 'z'))), Not(Dot())))
+	// first sets of mutually dependent rules (a rule consulted while it is still being analysed)
+	add("choice-recursive-first-sets", Seq(Ref(1), Not(Dot())), Alt(Seq(x(), Ref(2)), Lit("y")), Alt(Seq(Ref(1), Lit("q"), Ref(3)), Lit("k")),
+		Alt(Seq(Ref(2), Lit("r")), Seq(x(), Lit("r")), Class(R('m', 'p'))))
+	add("choice-union-order", Seq(Alt(Seq(Ref(1), Lit(";")), Seq(Lit("j"), Lit("!")), Class(R('0', '9'))), Not(Dot())),
+		Seq(Alt(b(), Class(R('e', 'k')), Class(R('a', 'g'))), Star(Class(R('a', 'z')))))
 	// guarded recursion
 	add("paren-recursion", Seq(Ref(1), Not(Dot())), Alt(Seq(Lit("("), Ref(1), Lit(")")), x()))
 	add("right-recursion-empty", Seq(Ref(1), Not(Dot())), Alt(Seq(a(), Ref(1)), Empty()))
